@@ -39,6 +39,7 @@ DEFAULT_PROFILE = dict(
     p_bparams=0.35, p_empty=0.08, ret_in_flagged=False, loop_in_body_under_for=False, eh=0.0, nincs=(0, 0), p_ieh=0.5,
     p_unbound=0.1, p_amark=0.3, p_fm=0.5, p_dm=0.5, p_cmark=0.25,
     eh_modes=["true"], ieh_modes=["true"], xcs=["boom"], p_inh=0.0, p_lk=0.0, routes=["context"], p_src=0.5, npy=(0, 0), p_pymod=0.5,
+    oes=[None], ees=["strict"], msgs=["ascii"], p_nasrc=0.0,
 )
 
 
@@ -480,6 +481,8 @@ class Gen:
         xc = r.choice(self.p["xcs"])
         out = dict(defs=self.defs, incs=incs, body=body, eh=eh, top=[k for k in names if k not in pys], py=pys,
                    pymod=bool(pys) and r.random() < self.p["p_pymod"], el="on", xc=xc, route=r.choice(self.p["routes"]),
+                   oe=r.choice(self.p["oes"]), ee=r.choice(self.p["ees"]), msgk=r.choice(self.p["msgs"]),
+                   nasrc=r.random() < self.p["p_nasrc"],
                    fe=(eh == "none" and XB[xc] and r.random() < self.p.get("fe", 0.0)),
                    lk=(r.random() < self.p["p_lk"] and len({t["ieh"] for t in incs}) <= 1), inh=False, base=[])
         if r.random() < self.p["p_inh"]:
@@ -745,15 +748,21 @@ def pycap(context, name, *a, **kw):
     from mako import runtime
     return runtime.capture(context, getattr(context['self'], name), *a, **kw)
 def genf(items, log, name):
-    try:
-        for x in items:
-            yield x
-    finally:
-        log.append(name)
+    """a generator whose finally is observable per instance: log[name] = (generator, state)."""
+    state = {'fin': False}
+    def g():
+        try:
+            for x in items:
+                yield x
+        finally:
+            state['fin'] = True
+    it = g()
+    log[name] = (it, state)
+    return it
 class ItObj:
     """an iterator object with a close() method that records calls."""
     def __init__(self, items, log, name):
-        self.items, self.log, self.name = list(items), log, name
+        self.items, self.closed = list(items), False
     def __iter__(self):
         return self
     def __next__(self):
@@ -761,7 +770,7 @@ class ItObj:
             raise StopIteration
         return self.items.pop(0)
     def close(self):
-        self.log.append(self.name + ':close')
+        self.closed = True
 class GetItemOnly:
     def __init__(self, n):
         self.n = n
@@ -815,6 +824,11 @@ class Conc:
         return self.ctl("end" + kw)
 
     def comment(self):
+        if self.p.get("nasrc"):
+            # source lines quoted on an error page: non-ASCII, non-latin-1 and non-BMP characters
+            if self.plain or self.r.random() < .35:
+                return "## caf\xe9 \u20ac\u2603 \U0001d11e\n"
+            return ""
         if not self.plain and self.r.random() < .12:
             return self.ind() + "## a comment\n"
         return ""
@@ -1021,7 +1035,7 @@ class Conc:
                 forms.append("set(range(%d))" % n)
         else:
             forms = ["(q for q in range(%d))" % n, "iter(range(%d))" % n, "iter([%s])" % ", ".join(str(i) for i in range(n)),
-                     "genf(range(%d), [], 'z')" % n, "GetItemOnly(%d)" % n, "NoLen(%d)" % n, "ItObj(range(%d), [], 'z')" % n]
+                     "genf(range(%d), {}, 'z')" % n, "GetItemOnly(%d)" % n, "NoLen(%d)" % n, "ItObj(range(%d), {}, 'z')" % n]
         return forms[0] if self.plain else r.choice(forms)
 
     def pyblock(self, lines):
@@ -1099,9 +1113,9 @@ class Conc:
         if k == "drain":
             return "${''.join(%s)}\n" % s["v"]
         if k == "itobs":
-            mark = s["v"] if s["kind"] == "genfn" else s["v"] + ":close"
-            bad = "fin" if s["kind"] == "genfn" else "closed"
-            return "${(%s, '[%s]' if '%s' in itlog else '[untouched]')[1]}\n" % (s["v"], bad, mark)
+            if s["kind"] == "genfn":
+                return "${'[fin]' if (%s, itlog['%s'])[1][1]['fin'] else '[untouched]'}\n" % (s["v"], s["v"])
+            return "${'[closed]' if %s.closed else '[untouched]'}\n" % s["v"]
         if k == "ret":
             return self.pyblock(["return STOP_RENDERING"])
         if k == "brk":
@@ -1234,6 +1248,9 @@ class Other(Exception):
     pass
 
 
+MSG = {"ascii": "planted", "latin1": "planted caf\xe9", "nonlatin": "planted \u20ac\u2603", "nonbmp": "planted \U0001d11e"}
+
+
 class Runaway(BaseException):
     pass
 
@@ -1290,6 +1307,10 @@ class Executor:
             main_kw["enable_loop"] = False
         if p.get("fe"):
             main_kw["format_exceptions"] = True
+        if p.get("oe"):
+            main_kw["output_encoding"] = p["oe"]
+        if p.get("ee", "strict") != "strict":
+            main_kw["encoding_errors"] = p["ee"]
         if p.get("lk"):
             # handlers and options given to the TemplateLookup, templates created by the lookup
             lkw = dict(main_kw)
@@ -1326,8 +1347,31 @@ class Executor:
         if c == "kbint":
             return KeyboardInterrupt()
         if c == "stopiter":
-            return StopIteration("planted")
-        return Boom("planted")
+            return StopIteration(MSG[self.prog.get("msgk", "ascii")])
+        return Boom(MSG[self.prog.get("msgk", "ascii")])
+
+    def _decode(self, b):
+        """text of rendered bytes: the page / output is decoded as utf-8 or as the configured output_encoding."""
+        if not isinstance(b, bytes):
+            return b
+        for enc in ("utf-8", self.prog.get("oe") or "utf-8"):
+            try:
+                return b.decode(enc)
+            except UnicodeDecodeError:
+                pass
+        return "undecodable-output \xff"
+
+    def _page(self, text):
+        """an error page must name the exception class and carry its message (entity-escaped where needed)."""
+        import html
+        if "Mako Runtime Error" not in text:
+            return ["not-an-error-page"]
+        t = html.unescape(text)
+        if self.boom is not None and type(self.boom).__name__ in t and str(self.boom.args[0]) in t:
+            return ["ERRPAGE"]
+        if any(n in t for n in ("TypeError", "UnboundLocalError", "Other")):
+            return ["ERRPAGE"]
+        return ["error-page-without-the-exception"]
 
     def _mk(self, context, m, caller, loop, w="s"):
         self.cnt += 1
@@ -1393,7 +1437,7 @@ class Executor:
                 yield None
             finally:
                 context.write(t2)
-        data = dict(mk=self._mk, Boom=self.xcls, cm=cm, itlog=[])
+        data = dict(mk=self._mk, Boom=self.xcls, cm=cm, itlog={})
         if self.prog.get("el", "on") == "off":
             data["loop"] = "ctxloop"
         route = self.prog.get("route", "context")
@@ -1402,8 +1446,10 @@ class Executor:
         ctx = None
         text = None
         if route == "context":
+            if self.prog.get("oe"):      # as runtime._render does for render(): an encoding buffer, bytes out
+                buf = util.FastEncodingBuffer(encoding=self.prog["oe"], errors=self.prog.get("ee", "strict"))
             ctx = Context(buf, **data)
-            ctx._outputting_as_unicode = True
+            ctx._outputting_as_unicode = not self.prog.get("oe")
         same = True
         old = signal.signal(signal.SIGALRM, _alarm)
         signal.setitimer(signal.ITIMER_REAL, core.tscale(10))
@@ -1444,11 +1490,10 @@ class Executor:
                 if c2 is not None and res != "ok":
                     o["fb"], o["fc"], o["fnc"] = len(c2._buffer_stack), len(c2.caller_stack), c2.caller_stack.nextcaller is not None
                 if text is not None:
-                    if isinstance(text, bytes):
-                        text = text.decode("utf-8", "replace")
+                    text = self._decode(text)
                     if self.prog.get("fe") and "Mako Runtime Error" in text:
                         o["res"] = "page"
-                        o["out"] = ["ERRPAGE"]
+                        o["out"] = self._page(text)
                     else:
                         o["out"] = TOK.findall(text)
                         stray = set(TOK.sub("", text)) - set("xy \n\t")
@@ -1460,13 +1505,13 @@ class Executor:
             o["fnc"] = ctx.caller_stack.nextcaller is not None
             if self.prog.get("fe") and res == "ok" and ctx._buffer_stack and ctx._buffer_stack[0] is not buf:
                 # format_exceptions: _render_error replaced the buffer stack and rendered the error page
-                page = ctx._buffer_stack[0].getvalue()
+                page = self._decode(ctx._buffer_stack[0].getvalue())
                 o["res"] = "page"
-                o["out"] = ["ERRPAGE"] if "Mako Runtime Error" in page else ["not-an-error-page"]
+                o["out"] = self._page(page)
             else:
-                before = buf.getvalue()
+                before = self._decode(buf.getvalue())
                 ctx.write("[after]")
-                o["after"] = buf.getvalue() == before + "[after]"
+                o["after"] = self._decode(buf.getvalue()) == before + "[after]"
                 o["out"] = TOK.findall(before)
                 stray = set(TOK.sub("", before)) - set("xy \n\t")
                 if stray:        # anything besides tokens and the cosmetic filler is output nobody asked for
@@ -1515,7 +1560,8 @@ def standalone(prog, raise_at):
     texts = Conc(prog, None, plain=True).templates()
     return {"templates": texts, "raise_at_kth_marker": raise_at, "error_handler": hmode(prog["eh"]), "format_exceptions": bool(prog.get("fe")),
             "include_error_handlers": [hmode(t["ieh"]) for t in prog["incs"]], "exception_class": prog.get("xc", "boom"),
-            "route": prog.get("route", "context"), "handlers_on_lookup": bool(prog.get("lk"))}
+            "route": prog.get("route", "context"), "handlers_on_lookup": bool(prog.get("lk")),
+            "output_encoding": prog.get("oe"), "encoding_errors": prog.get("ee", "strict"), "exception_message": MSG[prog.get("msgk", "ascii")]}
 
 
 def check_batch(run, progs, maxraise, name, signature_of=None, coverage=False, workers=None, need_actions=()):
